@@ -44,11 +44,13 @@ func (c *fctx) stdMethod(call *ast.CallExpr) (string, ast.Expr) {
 func (c *fctx) isSpecialCall(call *ast.CallExpr) bool {
 	switch c.pkgFunc(call) {
 	case "bytes.NewReader", "bufio.NewReader", "io.ReadFull", "encoding/binary.Write", "sort.Slice",
-		"bytes.Equal", "crypto/hmac.Equal", "crypto/rand.Read", "crypto/aes.NewCipher", "crypto/cipher.NewCBCEncrypter", "crypto/cipher.NewCBCDecrypter":
+		"bytes.Equal", "crypto/hmac.Equal", "strings.Repeat", "crypto/rand.Int", "crypto/rand.Read", "crypto/aes.NewCipher", "crypto/cipher.NewCBCEncrypter", "crypto/cipher.NewCBCDecrypter":
 		return true
 	}
 	m, _ := c.stdMethod(call)
 	switch m {
+	case "math/big.Int.Cmp":
+		return true
 	case "math/big.Int.Exp", "math/big.Int.Bytes", "math/big.Int.SetUint64", "math/big.Int.SetBytes", "math/big.Int.SetString",
 		"crypto/cipher.BlockMode.CryptBlocks":
 		return true
@@ -113,6 +115,8 @@ func (c *fctx) specialCallExpr(call *ast.CallExpr) (string, bool) {
 	switch c.pkgFunc(call) {
 	case "bytes.NewReader", "bufio.NewReader":
 		return c.expr(call.Args[0]), true
+	case "strings.Repeat":
+		return "(Go.strRepeat " + c.expr(call.Args[0]) + " " + c.toInt(call.Args[1]) + ")", true
 	case "bytes.Equal", "crypto/hmac.Equal":
 		// hmac.Equal is a constant-time comparison: the same value as bytes.Equal
 		return "(" + c.expr(call.Args[0]) + " == " + c.expr(call.Args[1]) + ")", true
@@ -131,6 +135,8 @@ func (c *fctx) specialCallExpr(call *ast.CallExpr) (string, bool) {
 		return "(Go.bigExp " + c.expr(call.Args[0]) + " " + c.expr(call.Args[1]) + " " + c.expr(call.Args[2]) + ")", true
 	case "math/big.Int.Bytes":
 		return "(natBytesMin " + c.expr(recv) + ")", true
+	case "math/big.Int.Cmp":
+		return "(Go.bigCmp " + c.bigArg(recv) + " " + c.bigArg(call.Args[0]) + ")", true
 	case "math/big.Int.SetUint64":
 		c.needFreshBig(call, recv)
 		if nt, ok := c.natTerm(call.Args[0]); ok {
@@ -240,6 +246,18 @@ func (c *fctx) specialAssign(s *ast.AssignStmt) bool {
 		c.lvalSet(s.Lhs[0], t+".1")
 		c.lvalSet(s.Lhs[1], c.errFromEnum(t+".2"))
 		return true
+	case "crypto/rand.Int":
+		if len(s.Lhs) != 2 || !c.isRandReader(call.Args[0]) {
+			c.fail(s, "rand.Int on a reader other than rand.Reader")
+		}
+		if !c.fi.usesRand {
+			c.fail(s, "random source outside the pre-pass")
+		}
+		t := c.bindM("", "Go.randInt rnd_ "+c.bigArg(call.Args[1]))
+		c.letPure("rnd_", "Rand", t+".1")
+		c.lvalSet(s.Lhs[0], t+".2.1")
+		c.lvalSet(s.Lhs[1], c.errFromEnum(t+".2.2"))
+		return true
 	case "crypto/rand.Read", "io.ReadFull":
 		bufArg := call.Args[len(call.Args)-1]
 		if c.pkgFunc(call) == "crypto/rand.Read" || c.isRandReader(call.Args[0]) {
@@ -307,6 +325,15 @@ func (c *fctx) checkBigEndian(e ast.Expr) {
 }
 
 func (c *fctx) specialCallStmt(call *ast.CallExpr) bool {
+	if m, recv := c.stdMethod(call); m == "math/big.Int.SetString" {
+		// x.SetString(s, 16) as a statement (results dropped): x := the number; a string that does not parse leaves x
+		// undefined in Go (documented) — the translation takes the parsed prefix value bigSetHex yields
+		if tv := c.info.Types[call.Args[1]]; tv.Value == nil || tv.Value.ExactString() != "16" {
+			c.fail(call, "SetString with a base other than 16")
+		}
+		c.lvalSet(recv, "(Go.bigSetHex "+c.expr(call.Args[0])+").1")
+		return true
+	}
 	if m, recv := c.stdMethod(call); m == "bytes.Buffer.Write" {
 		c.lvalSet(recv, "("+c.expr(recv)+" ++ "+c.expr(call.Args[0])+")")
 		return true
@@ -434,4 +461,12 @@ func (c *fctx) needFreshBig(at ast.Node, recv ast.Expr) {
 		}
 	}
 	c.fail(at, "math/big setter on a receiver that is not a fresh new(big.Int): the result is also stored in an object that outlives the call")
+}
+
+// a *big.Int argument: `&x` of a big.Int variable is the number x
+func (c *fctx) bigArg(e ast.Expr) string {
+	if u, ok := ast.Unparen(e).(*ast.UnaryExpr); ok && u.Op == token.AND {
+		return c.expr(u.X)
+	}
+	return c.expr(e)
 }
